@@ -351,7 +351,7 @@ var declassTable = []declassEntry{
 	{"5b-encoding-length", regexp.MustCompile(`^~\.SplitUncompressedPoint$`), mk("branch", "index"), mk("encoding-length"), "", "the encoding of k*G has 65 bytes unless k = 0, which the sampler / the k' test excludes"},
 	{"6-self-check-public-nonce-point", regexp.MustCompile(`^~/secec/bitcoin\.(verifySchnorrSignatureR|signSchnorr|verifySchnorrSelf)$`), mk("branch"), mk("bytes-eq", "identity", "parity", "zero-test"), "", "the mandatory BIP-340 self-check compares the recomputed public nonce point with the signature being released; k' = 0 has probability 2^-256"},
 	{"6b-self-check-bytes-equal", regexp.MustCompile(`^~/secec/bitcoin\.verifySchnorrSignatureR$`), mk("external-call"), nil, "bytes.Equal", "comparison of two encodings of the public nonce point of the signature being released"},
-	{"8-canonical-decode", regexp.MustCompile(`^\(\*~(/internal/field)?\.(Element|Scalar)\)\.SetCanonicalBytes$`), mk("branch"), mk("canonicity"), "", "validity outcome of a canonical decode"},
+	{"8-canonical-decode", regexp.MustCompile(`^\(\*~(/internal/field)?\.(Element|Scalar)\)\.SetCanonicalBytes$|^~(/internal/field)?\.New(Element|Scalar)FromCanonicalBytes$`), mk("branch"), mk("canonicity"), "", "validity outcome of a canonical decode"},
 }
 
 // declassified returns the id of the table entry covering the finding, or "".
